@@ -1,5 +1,5 @@
 Require Import ExtrOcamlBasic.
-From SharkV Require Import ListAux C03Model C12Model C12Folds C03Heap C03Weighted.
+From SharkV Require Import ListAux C03Model C12Model C12Folds C03Heap C03Weighted C12Loops.
 Extraction "c03_model.ml" opt_sizes batch_partitioning create repartition split_batch splice append reorder
   indexed_subset complement split_at_element element it_deref it_incr it_decr it_advance transform
   repartition_by_class class_sizes elems nelems sizes
@@ -9,4 +9,5 @@ Extraction "c03_model.ml" opt_sizes batch_partitioning create repartition split_
   binary_sub_problem view_of view_subset view_get vi_dataset_index to_dataset class_order class_order_loop repartition_by_class_loop
   step contents hnd init independent cv_indexed_shared fold_validation_shared fold_training_shared
   view_shared view_write
-  uniform_weights sum_of_weights w_bootstrap class_weight.
+  uniform_weights sum_of_weights w_bootstrap class_weight
+  scv_create_loop s_training_sd cv_create_loop training_sd complement_sd.
